@@ -690,6 +690,72 @@ static void check_coherence(Ctx& ctx, bool T) {
     }
 }
 
+// ------------------------------------------------------------------------------------------------ power peak, odd window lengths
+// Power-scaled level of a bin-centred tone for window lengths that are not powers of two (129, 201, 257, 258, 333, 511,
+// 1001 ...; the window-power compensation sums over the whole window, whatever its length).  Complex tone: the level is
+// A^2 exactly for every non-negative window and window length (no image), so the statement applies as written.  Real tone:
+// the negative-frequency image leaks into the bin unless the window transform vanishes there; the exact Welch estimate of
+// the harness's own segments gives that leakage, and the library may deviate from A^2/2 by no more than this leakage plus
+// the 1e-9 tolerance (weaker reading - never stricter than the statement where it applies exactly).
+static void peak_winlen_case(Ctx& ctx, bool cplx, int wl, int nfft, int nov, int wk, long long k) {
+    static const double amps[3] = {1e-3, 1, 1e3};
+    const Cfg c{nfft, wl, nov};
+    if (!ctx.take("welch.power_peak", cfg_params(cplx, c, wk).kv("k", k))) return;
+    const std::vector<double> w = own_window(wk, wl);
+    const int st = wl - nov, N = wl + 2 * st + (st - 1);
+    const Sig u = tone(cplx, N, k, nfft, 0.3L + 0.37L * (ld)(((k % 5) + 5) % 5), 1);
+    const ld want1 = cplx ? 1.0L : 0.5L;
+    ld leak = 0;
+    if (!cplx) {
+        const int nb = nfft / 2 + 1;
+        std::vector<ld> Pr = ref_welch(u, w, nov, nfft, true, nb);
+        ld pm = 0;
+        for (int i = 0; i < nb; ++i) pm = std::max(pm, (i > 0 && i < nfft / 2) ? 2 * Pr[(size_t)i] : Pr[(size_t)i]);
+        leak = fabsl(pm / want1 - 1);
+        ctx.worst("odd winlen: image leakage allowed for real tones (rel)", (double)leak);
+    }
+    ctx.nontrivial();
+    ctx.note(std::string("power_peak winlen set, ") + (cplx ? "complex " : "real ") + WKN[wk]);
+    for (int ai = 0; ai < 3; ++ai) {
+        const double A = amps[ai];
+        const Res r = call_welch(scaled(u, A), w, nov, nfft, true, 0);
+        if (!check_shape(ctx, r, cplx, nfft)) return;
+        double mx = 0;
+        for (double v : r.pxx) mx = std::max(mx, v);
+        const double want = (double)want1 * A * A;
+        const double rel = std::fabs(mx / want - 1);
+        ctx.worst(cplx ? "power peak rel err, odd winlen, complex" : "power peak rel err beyond allowed leakage, odd winlen, real",
+                  cplx ? rel : std::max(0.0, rel - (double)leak));
+        if (!(rel <= 1e-9 + (double)leak)) {
+            ctx.fail(site_of(cplx), fmt("max(pxx)=%.15g", mx),
+                     cplx ? fmt("%.15g (mean square of the tone)", want)
+                          : fmt("%.15g (mean square of the tone) within the image leakage %.3g of the exact estimate", want, (double)leak),
+                     P().kv("aspect", "peak").kv("amp", A).kv("ratio", mx / want));
+            return;
+        }
+    }
+}
+
+static void check_peak_winlens(Ctx& ctx, bool T) {
+    auto run = [&](int wl, const std::vector<int>& wks, bool both_nfft) {
+        int p2 = 1;
+        while (p2 < wl) p2 *= 2;
+        std::vector<int> nffts = {p2};
+        if (both_nfft) nffts.push_back(2 * p2);
+        for (int nfft : nffts)
+            for (int wk : wks)
+                for (int nov : {0, wl / 2})
+                    for (int cplx = 0; cplx < 2; ++cplx) {
+                        const std::vector<long long> ks = cplx ? std::vector<long long>{nfft / 3, -(long long)(nfft / 8)}
+                                                               : std::vector<long long>{nfft / 8, nfft / 3};
+                        for (long long k : ks) peak_winlen_case(ctx, cplx != 0, wl, nfft, nov, wk, k);
+                    }
+    };
+    for (int wl : {129, 201, 257, 258, 333, 511, 1001}) run(wl, {WK_RECT, WK_HAMM, WK_HANNP, WK_KAISER}, true);
+    if (T)
+        for (int wl = 129; wl <= 600; ++wl) run(wl, {WK_HAMM, WK_RECT}, false);
+}
+
 // ------------------------------------------------------------------------------------------------ big sizes (both tiers)
 // Signals of 70 000 and 140 000 samples with nfft 256 and 8192 (window length = nfft): behaviour that only shows above a
 // size threshold (retained buffers, 32-bit products such as length * nfft/2, recurrences whose error grows with the index).
@@ -762,5 +828,6 @@ int main(int argc, char** argv) {
     check_tones(ctx, T);
     check_coherence(ctx, T);
     check_big(ctx);
+    check_peak_winlens(ctx, T);
     return ctx.finish();
 }
